@@ -455,10 +455,16 @@ inline void forkedCases(long n, const std::function<void(long)> &fn, int timeout
     }
     if (pid == 0) {
       childRedirectStderr();
+      double lastFlush = now();
       for (long i = k; i < end; ++i) {
         sh->cur = i;
         sh->beat++;
         fn(i);
+        // counters survive a later crash of this child: flush them every now and then
+        if (now() - lastFlush > 0.25) {
+          flushStats();
+          lastFlush = now();
+        }
       }
       sh->cur = end;
       flushStats();
